@@ -77,6 +77,10 @@ NameBytes(s) == CASE s = "a" -> <<97>> [] s = "b" -> <<98>> [] s = "abc" -> <<97
                   [] s = "zz" -> <<122, 122>> [] s = "add" -> <<97, 100, 100>> [] s = "x" -> <<120>>
                   [] OTHER -> <<>>
 IsText(v) == v.t = "str" \/ v.t = "name" \/ v.t = "xname"
+\* composite objects are equal iff they share their value; whether two empty
+\* intervals "share a value" is left open by the reference
+SameView(a, b) == IF a.id = b.id /\ a.off = b.off /\ a.len = b.len THEN "t"
+                  ELSE IF a.len = 0 /\ b.len = 0 THEN "any" ELSE "f"
 B2S(b) == IF b THEN "t" ELSE "f"
 EqV(h, a, b) ==
     IF a.t = "int" /\ b.t = "int" THEN B2S(a.i = b.i)
@@ -94,11 +98,11 @@ EqV(h, a, b) ==
         ELSE B2S(a.s = b.s)
     ELSE IF a.t # b.t THEN
         \* arrays and procedures sharing a value are equal whatever their attribute
-        IF {a.t, b.t} = {"arr", "proc"} THEN B2S(a.id = b.id /\ a.off = b.off /\ a.len = b.len) ELSE "f"
+        IF {a.t, b.t} = {"arr", "proc"} THEN SameView(a, b) ELSE "f"
     ELSE IF a.t = "bool" THEN B2S(a.b = b.b)
     ELSE IF a.t = "mark" \/ a.t = "nil" THEN "t"
     ELSE IF a.t = "dict" THEN B2S(a.id = b.id)
-    ELSE IF a.t = "arr" \/ a.t = "proc" THEN B2S(a.id = b.id /\ a.off = b.off /\ a.len = b.len)
+    ELSE IF a.t = "arr" \/ a.t = "proc" THEN SameView(a, b)
     ELSE IF a.t = "op" THEN B2S(a.s = b.s)
     ELSE "skip"
 AnyBool == [t |-> "anybool"]
